@@ -420,6 +420,72 @@ def alignmentToInterval (codes : List Nat) (ds : List DRec) : List Interval :=
   (ds.zip (len.zip strand)).map (fun (x : DRec × Nat × Bool) =>
     { chrom := x.1.chrom, start := x.1.pos, stop := x.1.pos + (x.2.1 : Nat), name := x.1.name, score := x.1.mapq, minus := x.2.2 })
 
+/-! ### selection programs: `BamBufferExtractor` as a state machine (`__getitem__`, `_make_contigous`, `data`) -/
+
+/-- the extractor: the buffer, the start and end of every selected record, and whether the records lie back to back -/
+structure Ext where
+  data : Bytes
+  starts : List Nat
+  ends : List Nat
+  contig : Bool
+
+/-- `from_raw_buffer`: `BamBufferExtractor(chunk[:starts[-1]], starts[:-1], starts[1:])` -/
+def Ext.ofChunk (chunk : Bytes) : Ext :=
+  let s := findStarts chunk
+  { data := chunk.take (s.getLast?.getD 0), starts := s.dropLast, ends := s.drop 1, contig := true }
+
+/-- `__getitem__(item)`: same buffer, `_new_lines[item]`, `_ends[item]`, `is_contigous=False`
+(`item` given as the list of selected positions: a slice, a mask and an integer array all index the two arrays alike) -/
+def Ext.getitem (e : Ext) (idx : List Nat) : Ext :=
+  { data := e.data, starts := idx.filterMap (e.starts[·]?), ends := idx.filterMap (e.ends[·]?), contig := false }
+
+/-- running offsets `0, l0, l0+l1, …` (`np.insert(np.cumsum(lens), 0, 0)[:-1]`) -/
+def offsets : Nat → List Nat → List Nat
+  | _, [] => []
+  | s, l :: ls => s :: offsets (s + l) ls
+
+/-- `_make_contigous`: gather the records (`RaggedArray(data, RaggedView2(starts, lens)).ravel()`), new starts/ends from
+the cumulative lengths; IN PLACE (later selections and reads see the compacted state) -/
+def Ext.compact (e : Ext) : Ext :=
+  if e.contig then e else
+  let lens := (e.starts.zip e.ends).map (fun p => p.2 - p.1)
+  let st := offsets 0 lens
+  { data := (e.starts.zip lens).flatMap (fun p => slice e.data p.1 p.2), starts := st,
+    ends := (st.zip lens).map (fun p => p.1 + p.2), contig := true }
+
+/-- `get_data` on the extractor: every field of every selected record, offsets taken from the CURRENT starts -/
+def Ext.records (names : List Bytes) (e : Ext) : List DRec := e.starts.map (decodeAt false false names e.data)
+
+inductive PStep where
+  | select (idx : List Nat)     -- t = t[item]
+  | write                       -- f.write(t): `t.data` compacts t in place and its bytes are written
+  | fields                      -- read all fields of t
+
+inductive POut where
+  | written (b : Bytes)
+  | read (ds : List DRec)
+deriving DecidableEq
+
+def runProg (names : List Bytes) : Ext → List PStep → List POut
+  | _, [] => []
+  | e, .select idx :: p => runProg names (e.getitem idx) p
+  | e, .write :: p => (.written e.compact.data) :: runProg names e.compact p
+  | e, .fields :: p => (.read (e.records names)) :: runProg names e p
+
+/-- what the property demands of the same program: the selection is a list of records; a write yields their encoding,
+a read their views -/
+def specProg (names : List Bytes) : List Rec → List PStep → List POut
+  | _, [] => []
+  | cur, .select idx :: p => specProg names (idx.filterMap (cur[·]?)) p
+  | cur, .write :: p => (.written (encodeAll cur)) :: specProg names cur p
+  | cur, .fields :: p => (.read (cur.map (view names))) :: specProg names cur p
+
+/-- every selection refers to positions that exist -/
+def progOK : Nat → List PStep → Bool
+  | _, [] => true
+  | n, .select idx :: p => idx.all (· < n) && progOK idx.length p
+  | n, _ :: p => progOK n p
+
 /-! probe used to tie the fixed offsets to the running code (see Gen/C16.lean): one record with
 `l_read_name = 1`, everything else zero, `pad` zero bytes of payload; byte `o` incremented -/
 def probeTemplate (pad : Nat) (o : Nat) : Bytes :=
